@@ -26,6 +26,7 @@ A payload descriptor is a dict:
                 ("stubborn", k, period)       (asyncio) heartbeat loop absorbing the first k cancellations
                 ("repeat-adopt", d, period, n) (threading) adopt n copies of d, period apart
                 ("wait-private",)             (coroutines) wait for an object nobody else refers to
+                ("to-thread-call", name)      (coroutines) run env.shared[name](env) in a helper thread and wait for it
                 ("section-adopt", descriptor) adopt another payload from inside a section
                 ("call", name)                call env.shared[name](env)
 
@@ -408,6 +409,9 @@ class Kit:
                 self.env.log("cleanup-step", id=desc["id"], index=index)
         if cleanup and cleanup[0] in ("sync-adopt", "shield-adopt"):
             self.submit(cleanup[-1], "adopt")
+        if cleanup and cleanup[0] == "sync-set":
+            # tells another payload, which waits for it in its own cleanup, that this one is done
+            self.env.shared[cleanup[1]] = True
 
     def _asyncio(self, desc):
         kit = self
@@ -461,6 +465,14 @@ class Kit:
                             await asyncio.sleep(step[1])
                             kit.env.log("beat", id=desc["id"])
                             kit._section(desc)
+                    elif op == "to-thread-call":
+                        await asyncio.get_running_loop().run_in_executor(
+                            None, lambda: kit.env.shared[step[1]](kit.env))
+                    elif op == "repeat-adopt":
+                        for number in range(step[3]):
+                            kit.submit(dict(step[1], id="%s-%d" % (step[1]["id"], number)),
+                                       "adopt")
+                            await asyncio.sleep(step[2])
                     elif op == "repeat-execute":
                         while True:
                             kit.submit(step[1], "execute")
@@ -518,6 +530,15 @@ class Kit:
                             await trio.sleep(step[1])
                             kit.env.log("beat", id=desc["id"])
                             kit._section(desc)
+                    elif op == "to-thread-call":
+                        # a blocking call handed to a helper thread, as trio asks for
+                        await trio.to_thread.run_sync(
+                            lambda: kit.env.shared[step[1]](kit.env))
+                    elif op == "repeat-adopt":
+                        for number in range(step[3]):
+                            kit.submit(dict(step[1], id="%s-%d" % (step[1]["id"], number)),
+                                       "adopt")
+                            await trio.sleep(step[2])
                     elif op == "repeat-execute":
                         while True:
                             kit.submit(step[1], "execute")
@@ -535,6 +556,11 @@ class Kit:
                 if cleanup and cleanup[0] in ("shield", "shield-adopt"):
                     with trio.CancelScope(shield=True):
                         await trio.sleep(cleanup[1])
+                if cleanup and cleanup[0] == "shield-until":
+                    # keeps draining until a payload of another flavour has finished
+                    with trio.CancelScope(shield=True):
+                        while not kit.env.shared.get(cleanup[1]):
+                            await trio.sleep(0.05)
                 kit._cleanup_sync(desc)
                 kit.env.log("cleanup-done", id=desc["id"])
 
